@@ -506,6 +506,16 @@ func run(r *lib.Run) {
 		r.Count("op_"+k, v)
 	}
 	r.Count("serial_histories", n)
+	var xwg sync.WaitGroup
+	for i := 0; i < r.Pick(2, 8); i++ {
+		xwg.Add(1)
+		go func(i int) { defer xwg.Done(); longLived(r, i, r.Pick(2600, 6000)) }(i)
+	}
+	for i := 0; i < r.Pick(6, 60); i++ {
+		xwg.Add(1)
+		go func(i int) { defer xwg.Done(); concurrentReports(r, i) }(i)
+	}
+	xwg.Wait()
 	for _, c := range []string{"full_bucket_newcomer_to_replacements", "removed_by_failed_liveness", "removed_by_five_fruitless_queries", "removed_by_delete", "removal_followed_by_promotion"} {
 		if r.Counter(c) == 0 {
 			r.Warn("coverage: %s never happened", c)
